@@ -794,10 +794,12 @@ class _VTime:
 @contextlib.contextmanager
 def patch_time(sched, *modules):
     """Replace the ``time`` attribute of the given (already imported) modules by the
-    scheduler's virtual clock for the duration of the block."""
-    saved = [(m, m.time) for m in modules]
+    scheduler's virtual clock for the duration of the block.  A module that has no ``time``
+    attribute (it does not use the clock) is left alone: whether the code under test imports
+    ``time`` is its own business, not a harness precondition."""
+    saved = [(m, m.time) for m in modules if hasattr(m, "time")]
     try:
-        for m in modules:
+        for m, _old in saved:
             m.time = sched.time_module()
         yield
     finally:
